@@ -30,7 +30,7 @@ func TestC20(t *testing.T) {
 	defer r.Finish()
 	r.Extra("rule", "G: generated models with a generated custom-option schema, each in R renderings (option paths vs message literals, <>/{} , separators, dec/hex/octal, escapes); one evaluation = one (element, options message) "+
 		"comparison compiled-vs-model per option field (NaN- and -0.0-aware), plus default/json_name pseudo-options, plus a walk asserting no uninterpreted_option; non-trivial = the element carries >=1 option; distinct = (source set, element). "+
-		"M: per model one control block (values at the integer limits, enum numbers in literals, repeated statements, target types; expected values written independently in text format) and ~75 rule-tagged bad statements appended as text; "+
+		"M: per model one control block (values at the integer limits, enum numbers in literals, repeated statements, target types, a google.protobuf.Any expansion; expected values written independently in text format) and ~75 rule-tagged bad statements appended as text; "+
 		"R1 options/*.protoset and every R2 descriptor with source: per element comparison of the options with protoc's recorded values; R3 anchors replayed.")
 	r.Extra("assumptions", []string{
 		"the model a source was rendered from is what protoc would output for it (renderer calibrated on protoc's own descriptors, C02)",
@@ -144,7 +144,7 @@ func isOptionError(msg string) bool {
 // ---------------------------------------------------------------------------
 
 func c20Generated(r *vlib.Run, anch map[string]anchorInfo) {
-	n := r.N(260, 4000)
+	n := r.N(220, 4000)
 	R := r.N(3, 6)
 	r.Par(n, func(i int) {
 		id := fmt.Sprintf("g/%d", i)
@@ -360,6 +360,25 @@ func c20Mutants(r *vlib.Run, id string, m *gen.Model, anch map[string]anchorInfo
 		r.Inconclusive("decode control options: " + err.Error())
 		return
 	}
+	// the Any expansion is compared by content (its value is a serialized OptMsg)
+	anyOK := false
+	if xt, err := types.FindExtensionByNumber("google.protobuf.MessageOptions", 70011); err == nil && gotOpts.Has(xt.TypeDescriptor()) {
+		am := gotOpts.Get(xt.TypeDescriptor()).Message()
+		url := am.Get(am.Descriptor().Fields().ByName("type_url")).String()
+		val := am.Get(am.Descriptor().Fields().ByName("value")).Bytes()
+		if omt, err := types.FindMessageByName(protoreflect.FullName(pkg + ".OptMsg")); err == nil {
+			gotInner, wantInner := dynamicpb.NewMessage(omt.Descriptor()), dynamicpb.NewMessage(omt.Descriptor())
+			e1 := (proto.UnmarshalOptions{Resolver: types}).Unmarshal(val, gotInner)
+			e2 := (prototext.UnmarshalOptions{Resolver: types}).Unmarshal([]byte(`i: 7 s: "x"`), wantInner)
+			if e1 == nil && e2 == nil && url == "type.googleapis.com/"+pkg+".OptMsg" && gen.Diff(gotInner, wantInner) == "" {
+				anyOK = true
+			}
+		}
+		gotOpts.Clear(xt.TypeDescriptor())
+	}
+	if !anyOK {
+		r.Violation("c20.value-differs", "control block: google.protobuf.Any expansion", id, map[string]any{"source": ctlSrc, "options": fmt.Sprint(probe.GetOptions())})
+	}
 	if d := gen.Diff(gotOpts, want); d != "" {
 		r.Violation("c20.value-differs", "control block: "+gen.DiffClass(d), id, map[string]any{"source": ctlSrc, "diff compiled!=expected": d})
 	}
@@ -449,7 +468,7 @@ func c20Anchors(r *vlib.Run, anch map[string]anchorInfo) {
 			names[mu.Anchor] = true
 		}
 	}
-	for _, extra := range []string{"success_enum_in_msg_literal_using_negative_number", "success_large_negative_integer", "success_large_positive_integer", "success_inf_nan_in_option_value"} {
+	for _, extra := range []string{"success_any_message_literal", "success_enum_in_msg_literal_using_negative_number", "success_large_negative_integer", "success_large_positive_integer", "success_inf_nan_in_option_value"} {
 		names[extra] = true
 	}
 	missing := []string{}
